@@ -2,7 +2,7 @@
 //! `Manager::gen_full_cfg` up to `<stage>` on the nodes parsed from the store and dumps the
 //! graph; `diag <picks> <store> <base>` prints the diagnostic items of the whole pipeline.
 //! Edges are read by `Rc` pointer identity.  `<picks>` is for the model only.
-use crate::memreader::MemReader;
+use crate::memreader::{decode_store, MemReader};
 use crate::s_lex::show_range;
 use crate::s_parse::{run_parse, show_node};
 use crate::wire::enc_str;
@@ -10,7 +10,7 @@ use crate::Handler;
 use riscv_analysis::analysis::{AvailableValue, AvailableValuePass, LivenessPass, MemoryLocation};
 use riscv_analysis::cfg::{AvailableValueMap, Cfg, CfgNode, RegisterSet, Segment};
 use riscv_analysis::gen::{EcallTerminationPass, EliminateDeadCodeDirectionsPass, FunctionMarkupPass, NodeDirectionPass};
-use riscv_analysis::parser::{ParseError, ParserNode, Register};
+use riscv_analysis::parser::{ParseError, ParserNode, RVParser, Register};
 use riscv_analysis::passes::{CfgError, DiagnosticItem, DiagnosticLocation, GenerationPass, Manager, SeverityLevel};
 use std::collections::HashSet;
 use std::rc::Rc;
@@ -20,6 +20,7 @@ pub fn dispatch(cmd: &str) -> Option<Handler> {
         "cfg" => cfg_cmd,
         "diag" => diag_cmd,
         "rerun" => rerun_cmd,
+        "repeat" => repeat_cmd,
         _ => return None,
     })
 }
@@ -295,4 +296,36 @@ fn rerun_cmd(a: &[&str]) -> String {
         }
     }
     if dump(&reader, &cfg) == before_full { "SAME END".to_string() } else { "SAME UDEF-CHANGED END".to_string() }
+}
+
+/// `repeat <k> <store> <base>`: `RVParser::run` k times in this process, each on a fresh parser and reader
+/// (fresh file/node UUIDs and fresh hash seeds for every map); prints each run's item list in output order.
+/// Files are named by their path so that the order of files can be compared between runs.
+fn repeat_cmd(a: &[&str]) -> String {
+    use riscv_analysis::reader::FileReader;
+    let k: usize = a[0].parse().unwrap_or(2);
+    let mut out = vec![format!("RUNS {}", k)];
+    for _ in 0..k {
+        let (reader, base) = decode_store(&a[1..]);
+        let mut parser = RVParser::new(reader);
+        let items = parser.run(&base);
+        let r = &parser.reader;
+        let shown: Vec<String> = items
+            .iter()
+            .map(|d| {
+                let rel = d.related.as_ref().map_or(String::new(), |v| {
+                    v.iter()
+                        .map(|x| format!("{}:{}:{}", r.get_filename(x.file).map_or("-".to_string(), |f: String| enc_str(&f)),
+                            show_range(&x.range).replace(' ', "-"), enc_str(&x.description)))
+                        .collect::<Vec<_>>()
+                        .join("+")
+                });
+                format!("D({} {} {} {} @{}/{} rel={})", sev(&d.level), enc_str(&d.title), enc_str(&d.description), enc_str(&d.long_description),
+                    show_range(&d.range).replace(' ', "-"), r.get_filename(d.file).map_or("-".to_string(), |f: String| enc_str(&f)), rel)
+            })
+            .collect();
+        out.push(format!("R[{}]", shown.join(" ")));
+    }
+    out.push("END".to_string());
+    out.join(" ")
 }
